@@ -192,6 +192,9 @@ class Peer:
         elif name == 'Skipped':
             from xdoctest import exceptions
             cls = exceptions._pytest.outcomes.Skipped
+        elif name == 'Group1':
+            # an exception group with a single member
+            return ExceptionGroup(msg or 'grp', [ValueError('member of ' + (msg or 'grp'))])
         elif name == 'Failed':
             # what pytest.fail() raises: a BaseException that is not a graceful exit
             from _pytest.outcomes import Failed
@@ -269,6 +272,9 @@ class Peer:
                 lines = [tok(pid, n, wrong=True), tok(pid, n)]
             elif kind in ('mute', 'drop_line'):
                 lines = []
+            elif kind == 'ansi':
+                # the right answer, in colour (terminal escape codes are not content)
+                lines = ['\x1b[32m' + tok(pid, n) + '\x1b[0m']
         text = ''.join(l + '\n' for l in lines)
         if text:
             self._write(dtid, k, pid, text)
@@ -329,6 +335,19 @@ class Peer:
             self._misbehave_pre(f, pid, n, sys._getframe(1).f_globals)
         return lambda obj: obj
 
+    def writeto(self, stream, pid):
+        """module code that writes to a stream it bound when it was imported (a default
+        argument, a logging handler): on the unchanged tree that is whatever sys.stdout
+        was at import time, never a doctest's capture"""
+        dtid, k, n = self._hit(pid)
+        if self.mode == 'ref':
+            return
+        try:
+            stream.write(tok(pid, n) + '\n')
+        except ValueError:
+            # the stream was closed meanwhile
+            raise
+
     def sayval(self, pid):
         """returns a plain, shared (non-unique) string value"""
         dtid, k, n = self._hit(pid)
@@ -364,7 +383,7 @@ class Peer:
     def _emit_text(pid, text):
         """code under test writes in different ways; which one is a fixed function
         of the point, so that every run of the same world writes the same way"""
-        style = sum(ord(c) for c in pid) % 6
+        style = sum(ord(c) for c in pid) % 7
         out = sys.stdout
         if style == 0 or not text:
             out.write(text)
@@ -378,8 +397,24 @@ class Peer:
             out.write(text[:2])
             out.flush()
             out.write(text[2:])
-        else:
+        elif style == 5:
             print(text, end='', file=out, flush=True)
+        else:
+            # from a worker thread that is joined before the statement goes on
+            # (an error in the worker is handed back to the caller, as a future's result() does)
+            import threading
+            box = []
+
+            def work():
+                try:
+                    out.write(text)
+                except BaseException as ex:     # noqa
+                    box.append(ex)
+            t = threading.Thread(target=work)
+            t.start()
+            t.join()
+            if box:
+                raise box[0]
 
     async def aop(self, pid, delay=None):
         dtid, k, n = self._hit(pid)
@@ -467,6 +502,9 @@ class Peer:
                     # (not an entry the process had before: nothing to subtract, but the
                     # module body did edit sys.path)
                     self.import_log.append((modname, 'removed_tmp', tmp))
+            elif how == 'rebind':
+                # the module replaces the list object itself
+                sys.path = list(sys.path)
             elif how == 'dup_tmp':
                 tmp = b.get('_tmp')
                 if tmp:
@@ -512,7 +550,7 @@ PEER = Peer()
 def install():
     """Create the module object `_xdsim` whose attributes forward to PEER."""
     mod = types.ModuleType(MODNAME)
-    for name in ('op', 'emit', 'emitop', 'emitnoeol', 'abg', 'deco', 'sayval', 'say', 'aop', 'actx', 'point', 'names', 'modglobal', 'importing'):
+    for name in ('op', 'emit', 'emitop', 'emitnoeol', 'abg', 'deco', 'sayval', 'writeto', 'say', 'aop', 'actx', 'point', 'names', 'modglobal', 'importing'):
         setattr(mod, name, getattr(PEER, name))
     mod.Val = Val
     mod.SimError = SimError
